@@ -687,6 +687,12 @@ func runHosts(c *wk.Ctx) {
 		for k := range ops {
 			ops[k] = randHop(r, cfg)
 		}
+		if i%128 == 77 {
+			// a long uptime: eight days pass in the middle of the history (the minute ticker runs 11 520 times on the virtual
+			// clock); whatever "never" is built on must still hold - this host's own entry, the deadlines
+			ops[len(ops)/2] = hop{K: "adv", D: 8 * 24 * time.Hour}
+			c.Obs("histories_with_eight_days_uptime", 1)
+		}
 		one(idx, ops, cfg, "random")
 	}
 	c.Obs("distinct_model_states(per-worker sum)", int64(len(states)))
